@@ -25,7 +25,7 @@ def make(rng, dmax=5, boundary=False):
     rows, cols, ranks = gen.rand_shape(rng, dmax=dmax, mmax=3, rmax=5, size_cap=8192)
     d = len(rows)
     cplx = gen.rand_cplx(rng)
-    k = int(rng.integers(0, 6))
+    k = int(rng.integers(0, 7))
     if boundary:
         ranks = [int(rng.integers(1, 4))] + ranks[1:-1] + [int(rng.integers(1, 4))]
     if k == 0:
@@ -56,11 +56,19 @@ def make(rng, dmax=5, boundary=False):
                 c[...] = 0
                 c[tuple(int(rng.integers(0, n)) for n in c.shape)] = 1
             kind = 'unit_entries'
+    elif k == 6:
+        # entries whose squares leave the normal floating-point range (|x| ~ 1e-162..1e-150 or 1e140..1e152): norms and Gram matrices
+        # formed without scaling lose digits or overflow there, LAPACK's scaled routines do not
+        cores = gen.rand_cores(rng, rows, cols, ranks, cplx)
+        e = float(rng.uniform(-162, -150)) if rng.random() < 0.7 else float(rng.uniform(140, 152))
+        j = int(rng.integers(0, d))
+        cores[j] = cores[j] * 10.0 ** e
+        kind = 'extreme_scale'
     else:
         cores = gen.rand_cores(rng, rows, cols, ranks, cplx)
         gen.apply_scale(cores, rng, float(10 ** rng.uniform(-10, 10)))
         kind = 'scaled'
-    if rng.random() < 0.15:  # equal-shaped cores are one ndarray object (x (x) x (x) x as TT([x, x, x]), homogeneous chains)
+    if kind != 'extreme_scale' and rng.random() < 0.15:  # equal-shaped cores are one ndarray object (x (x) x (x) x as TT([x, x, x]), homogeneous chains)
         if rng.random() < 0.5 and d > 1:  # make that likely: homogeneous shape
             m, n, r = rows[0], cols[0], int(rng.integers(1, 3))
             cores = gen.rand_cores(rng, [m] * d, [n] * d, [r] * (d + 1), cplx if cplx != 'mixed' else True)
